@@ -256,7 +256,7 @@ func c14Worker(args []string) int {
 		time.Sleep(50 * time.Millisecond) // let the watcher register the directory
 		l.viaControl = ctrl
 	}
-	kinds := []string{"full-ok", "partial-ok", "partial-ok", "full-missing-path", "full-novalidation", "full-unreadable", "full-ok", "full-back-ok"}
+	kinds := []string{"full-ok", "partial-ok", "partial-ok", "full-missing-path", "full-novalidation", "full-unreadable", "full-ok", "full-back-ok", "full-same-ok"}
 	nreload, ctrlReloads, ctrlStuck := 0, 0, 0
 	for g := 0; g < gens; g++ {
 		k := kinds[rng.Intn(len(kinds))]
